@@ -132,6 +132,17 @@ pub fn narrow_class(sig: &str, detail: &str, view: Option<&View>) -> String {
         // the null-filling reader
         return "scan-fails-legacy-fragment-lacks-a-schema-field".into();
     }
+    let tombstones = view.map(|v| v.frags.iter().any(|f| f.files.iter().any(|df| df.fields.iter().any(|i| *i < 0)))).unwrap_or(false);
+    if sig.ends_with("-error") && sig.starts_with("full-scan") && legacy && tombstones {
+        // legacy-format data file whose first field id was tombstoned by an in-place column rewrite:
+        // the reader derives its field-id offset from fields[0] (= -2) and reads the wrong pages
+        return "scan-fails-legacy-data-file-with-tombstoned-field-id".into();
+    }
+    if sig == "validate-error" && detail.contains("is not in increasing order") && detail.contains("Field id -") && tombstones {
+        // FileFragment::validate compares every field id with a constant -1 ("let last = -1" is never
+        // updated), so any data file that carries a tombstoned (-2) field id fails validation
+        return "validate-rejects-data-file-with-tombstoned-field-id".into();
+    }
     sig.to_string()
 }
 
@@ -162,7 +173,8 @@ async fn classify_rowid_scan_failure(h: &Hist, loc: &Loc, v: u64, w: &crate::wal
 
 async fn one_case(seed: u64, case: u64, max_ops: usize, report: &Report) {
     let mut rng = Rng::for_case(seed, case);
-    let cfg = HistCfg::random(&mut rng);
+    let mut cfg = HistCfg::random(&mut rng);
+    cfg.partial_upsert_on_legacy = true;
     let n_ops = rng.urange(4, max_ops);
     let weights = base_weights();
     let mut h = Hist::mem(rng.clone(), cfg);
